@@ -1212,8 +1212,8 @@ def inline_locals(f, e, depth=3):
 
 class _FuseComps(ast.NodeTransformer):
     """``{f(x) for x in [g(y) for y in ys]}`` is ``{f(g(y)) for y in ys}``
-    (the inner comprehension has one generator and no condition, the outer
-    target is a plain name)."""
+    (the inner comprehension has one generator, the outer target is a plain
+    name; conditions of the inner one are kept in front)."""
 
     def _fuse(self, node):
         self.generic_visit(node)
@@ -1223,8 +1223,7 @@ class _FuseComps(ast.NodeTransformer):
         inner = g.iter
         if not (isinstance(g.target, ast.Name) and isinstance(
                 inner, (ast.ListComp, ast.GeneratorExp)) and len(
-                    inner.generators) == 1 and not
-                inner.generators[0].ifs):
+                    inner.generators) == 1):
             return node
         from psa import pathval
         env = {g.target.id: inner.elt}
@@ -1232,8 +1231,11 @@ class _FuseComps(ast.NodeTransformer):
         def sub(e):
             return pathval.subst(e, env)
         ig = inner.generators[0]
+        # the inner conditions first (they decide which elements exist),
+        # then the outer ones on the mapped element
         new_gen = ast.comprehension(target=ig.target, iter=ig.iter,
-                                    ifs=[sub(c) for c in g.ifs],
+                                    ifs=list(ig.ifs) + [
+                                        sub(c) for c in g.ifs],
                                     is_async=0)
         if isinstance(node, ast.DictComp):
             return ast.DictComp(key=sub(node.key), value=sub(node.value),
